@@ -442,7 +442,7 @@ func (f *Frame) cutLoop(L *Loop, invs []Clause) {
 	// 1. invariant holds on entry
 	sc := f.loopScope(L, st)
 	for _, inv := range invs {
-		t := f.evalSpecBool(sc, inv, lname)
+		t := f.evalSpecBool(sc.asGoal(), inv, lname)
 		o := c.Oblige("loopinv", lname+"."+inv.Name+".init", st.reach, t, pos, "invariant holds on entry: "+inv.Src)
 		o.Inputs = f.topFrame().inputTerms()
 	}
@@ -511,7 +511,7 @@ func (f *Frame) cutLoop(L *Loop, invs []Clause) {
 	// 3. assume the invariant
 	sc = f.loopScope(L, st)
 	for _, inv := range invs {
-		t := f.evalSpecBool(sc, inv, lname)
+		t := f.evalSpecBool(sc.asAssumption(), inv, lname)
 		c.Assume(st.reach, t, "loop invariant "+inv.Name)
 	}
 	var variant0 Term
@@ -532,7 +532,7 @@ func (f *Frame) cutLoop(L *Loop, invs []Clause) {
 	if !back.reach.IsFalse() {
 		sc2 := f.loopScope(L, back)
 		for _, inv := range invs {
-			t := f.evalSpecBool(sc2, inv, lname)
+			t := f.evalSpecBool(sc2.asGoal(), inv, lname)
 			o := c.Oblige("loopinv", lname+"."+inv.Name+".step", back.reach, t, pos, "invariant preserved by the loop body: "+inv.Src)
 			o.Inputs = f.topFrame().inputTerms()
 		}
@@ -670,7 +670,7 @@ func (w *World) verifyCase(ct *Contract, caseIdx int) (res *FuncResult) {
 	}
 	sc := &Scope{c: c, fr: f, st: st, old: st, vars: map[string]*Val{}, pkg: fn.Pkg}
 	for _, r := range ct.Requires {
-		c.Assume(TTrue, f.evalSpecBool(sc, r, "requires"), "requires "+r.Name)
+		c.Assume(TTrue, f.evalSpecBool(sc.asAssumption(), r, "requires"), "requires "+r.Name)
 	}
 	// case splitting
 	var cases []namedCase
@@ -738,7 +738,7 @@ func (w *World) verifyCase(ct *Contract, caseIdx int) (res *FuncResult) {
 		}
 	}
 	for _, e := range ct.Ensures {
-		t := f.evalSpecBool(post, e, "ensures")
+		t := f.evalSpecBool(post.asGoal(), e, "ensures")
 		o := c.Oblige("ensures", e.Name, rst.reach, t, pos, e.Src)
 		o.Inputs = inputs
 		o.Results = resultTerms
